@@ -60,6 +60,8 @@ def _events():
     ev("parse(num, locales en-GB)", lambda a: P("02/03/2015", locales=a["l"]), {"l": ["en-GB"]})
     ev("parse(skip foo)", lambda a: P("12 foo march 2015", languages=["en"], settings=a["s"]), {"s": {"SKIP_TOKENS": ["foo"]}}, core=True)
     ev("parse(skip bar)", lambda a: P("12 foo march 2015", languages=["en"], settings=a["s"]), {"s": {"SKIP_TOKENS": ["bar"]}}, core=True)
+    ev("parse(skip foo+bar)", lambda a: P("12 foo march 2015", languages=["en"], settings=a["s"]), {"s": {"SKIP_TOKENS": ["foo", "bar"]}}, core=True)
+    ev("parse(foo string, default settings)", lambda a: P("12 foo march 2015", languages=a["l"]), {"l": ["en"]})
     ev("parse(normalize off)", lambda a: P("4 decembre 2015", languages=["fr"], settings=a["s"]), {"s": {"NORMALIZE": False}}, core=True)
     ev("parse(normalize on)", lambda a: P("4 decembre 2015", languages=["fr"], settings=a["s"]), {"s": {"NORMALIZE": True}})
     ev("parse(order DMY)", lambda a: P("02/03/2015", languages=["en"], settings=a["s"]), {"s": {"DATE_ORDER": "DMY"}})
@@ -71,6 +73,8 @@ def _events():
     ev("parse(tl numeric)", lambda a: P("01/02/2020", languages=a["l"]), {"l": ["tl"]})
     ev("parse(fallback to 2 default languages)", lambda a: P("xyzzy plugh", languages=["en"], settings=a["s"]), {"s": {"DEFAULT_LANGUAGES": ["fr", "en"]}})
     ev("persistent tl parser, given order, 2 defaults", lambda a: _pp("tl", languages=["tl"], use_given_order=True, settings=a["s"]).get_date_data("01/02/2020 10h30"),
+       {"s": {"DEFAULT_LANGUAGES": ["fr", "en"]}})
+    ev("persistent tl parser, numeric", lambda a: _pp("tl", languages=["tl"], use_given_order=True, settings=a["s"]).get_date_data("01/02/2020"),
        {"s": {"DEFAULT_LANGUAGES": ["fr", "en"]}})
     ev("time-only TIMEZONE +0500", lambda a: P("10:00", languages=["en"], settings=a["s"]),
        {"s": {"TIMEZONE": "+0500", "RELATIVE_BASE": B, "PREFER_DATES_FROM": "past"}}, core=True)
@@ -313,7 +317,7 @@ def run(tier, seed, jobs, deadline, report):
     # cache-limit calls, calls whose settings inherit from the module default)
     quick_core = {i for i, e in enumerate(E) if e["name"].startswith("persistent") or e["name"] in (
         "parse(en, cache limit 1)", "parse(fr, cache limit 1)", "parse(de, cache limit 2)", "search(fr, S1)",
-        "parse(fr, no locale order)", "parse(tl numeric)")}
+        "parse(fr, no locale order)", "parse(tl numeric)", "parse(foo string, default settings)")}
     if T:
         res = _explore(full, 3, core, 4, jobs, deadline, seed, extend_from=all_core)
     else:
